@@ -27,8 +27,8 @@ WORKERS = {"quick": 4, "thorough": 16}
 def plan(tier, seed):
     n = 4 if tier == "quick" else 16
     return [{"tier": tier, "seed": seed, "shard": i, "n_shards": n,
-             "projects": 120 if tier == "quick" else 1200, "rounds": 4 if tier == "quick" else 40,
-             "metamodules": 20 if tier == "quick" else 300} for i in range(n)]
+             "projects": 400 if tier == "quick" else 2000, "rounds": 12 if tier == "quick" else 60,
+             "metamodules": 60 if tier == "quick" else 400} for i in range(n)]
 
 
 def problem_key(p):
